@@ -1,9 +1,11 @@
 CONFIG = dict(
     id="C05",
-    engine="bubble-session (+tcp smoke)",
+    engine="bubble-session (+tcp streams, +websocket messages, +simultaneous-close races)",
     technique="Lean 4: invariants over all interleavings of a small-step concurrent model of ClientSession (reader/writer/heartbeat/kickers, "
               "3-step Close under its mutex) + the owner's view as a function of the posted events + the id allocator; the real session stack is "
-              "replayed grant by grant against the model in a synctest bubble under a controlling scheduler",
+              "replayed grant by grant against the model in a synctest bubble under a controlling scheduler; a termination measure for the "
+              "threads' steps; a byte-level model of TCP framing (GetNextMessage over arbitrarily segmented streams) tied to the real TCPAcceptor "
+              "over sockets whose streams are cut at chosen offsets; the owner's id-keyed sessions map",
     level_text="Machine-checked proof in Lean 4, for every schedule of the reader, writer, heartbeat, any number of external Close callers, pushes, "
                "clock advances and every input/write result: session-add posted exactly once, session-remove and conn.Close at most once and equally often, "
                "mutual exclusion of Close (close_once); whatever prefix of the posted events the owner has consumed its handler saw add, then messages "
@@ -11,23 +13,55 @@ CONFIG = dict(
                "a returned read goroutine implies closed+removed (reader_end_closes); in every state where no thread can move the connection is either "
                "untouched or completely finished: remove once, conn closed once, all three goroutines returned (every_ending_closes, "
                "any_thread_gone_all_released); pushes after the close change nothing; ids of sessions allocated fewer than 2^32-1 apart differ and are "
-               "never 0 (unique_live_id). The pre-fix reader (D6) and the pre-fix owner (D15) are kept as definitions with witness theorems. The model is tied "
+               "never 0 (unique_live_id), so the id of a new session is none of the live ones' inside the allocation window (new_id_not_live). "
+               "LIVENESS: every step of a thread strictly decreases an explicit measure, so every run of the threads without new input is finite "
+               "(internal_steps_terminate), from every reachable state the threads come to rest, untouched or finished (always_comes_to_rest), and once "
+               "Close() has been called by anybody - every close cause does (close_causes_call_close) - every maximal run ends with the remove posted exactly "
+               "once, the conn closed exactly once and all goroutines returned (close_cause_finishes); no fairness assumption. MESSAGES FROM BELOW: no message "
+               "of a frame of decodable data on an ACKed session is ever dropped by the reader, whatever the other threads do (frame_messages_never_dropped), "
+               "and the owner handles exactly the messages posted before the remove (owner_sees_every_message_before_remove). FRAMING: what "
+               "tcpPlayerConn.GetNextMessage returns depends on the bytes of the stream only, not on their segmentation, and a stream of complete packets "
+               "yields exactly those packets (framing_independent_of_segmentation, framing_delivers_all_packets; defect witness single_read_loses_split_body); "
+               "WSConn.GetNextMessage returns a message holding exactly one packet and rejects anything longer (ws_one_packet_per_message). "
+               "The re-test of the closed latch under the mutex is what makes Close idempotent (defect witness unlocked_latch_test_closes_twice). "
+               "OWNER MAP: with every entry stored under its connection's id and no id shared, ProcessMessage/RemoveSession/Kick/PushMsg lookups find the "
+               "connection's own session or nothing, and a remove deletes exactly its own entry (owner_lookup_hits_own_session, owner_remove_deletes_own_entry, "
+               "owner_map_agrees), a PushMsg aimed at a removed session's id reaches nobody while the other ids of the same push are served "
+               "(push_after_remove_reaches_nobody; what id reuse inside a lifetime would do: id_reuse_hijacks_entry). The pre-fix reader (D6) and the pre-fix owner (D15) are kept as definitions with witness theorems. The model is tied "
                "to the Go code on every run: the real ClientSession + pomelo.SessionsImpl + impls.ClientSessions (+ HandlerComponent close callbacks) run over a "
                "scripted PlayerConn with every goroutine parked at harness gates; after every grant status, thread positions, conn.Close count, writes, the "
                "Impl-level and owner-level callback logs, live ids and the goroutine count are compared with the model, and the property predicate runs on the "
-               "implementation's own observations.",
+               "implementation's own observations (incl. a lower bound: messages of decodable frames handed to a Working session that nothing closed "
+               "must have been posted). The real TCPAcceptor is driven over 127.0.0.1 with byte streams that arrive in 1-4 pieces cut inside headers, "
+               "between header and body, inside bodies and at random offsets, and with bodies larger than the socket buffers; the model frames the same "
+               "stream (Framing.framesOf) and the predicate demands every complete message sent after the handshake. Simultaneous independent close causes "
+               "(K Close() calls + client EOF + write failure on each of hundreds of fresh real sessions) are released together from a spin barrier, and - "
+               "deterministically - made to arrive while Close's critical section is occupied (the harness holds the session's own mutex until all of them "
+               "are queued at it): exactly one OnSessionClose and one conn.Close per session, no panic, no goroutine left.",
     level_note="Partial: release of the goroutines and the conn is proved in the model and observed (runtime.NumGoroutine, Close count) on the implementation, "
                "not proved of the Go runtime; Go select/mutex/channel semantics are assumed; concurrent close causes are explored by the model's interleavings "
-               "and by the controller's grant orders (reader holding a frame / parked before a message post / writer parked in Write), not by controlling the Go "
-               "scheduler inside Close; TCP framing (tcpPlayerConn.GetNextMessage) is abstracted to frame/decode-error/read-error items in the bubble engine and "
-               "exercised end-to-end only by the tcp smoke run; the WebSocket acceptor is not exercised.",
+               "and by the controller's grant orders (reader holding a frame / parked before a message post / writer parked in Write), and by the race op (real goroutines "
+               "serialised through the session's own mutex, or released together), not by controlling the Go scheduler statement by statement inside Close "
+               "(the model's Close has 3 steps: lock / test-and-mark / conn.Close+post+unlock; the code's 5 effects inside the critical section are not "
+               "interleaved individually); TCP framing is a separate byte-level model (Framing) whose messages feed the session model in the tcp engine - body "
+               "bytes are abstracted to their length, message decoding is C06's; the bubble engine still works on frame/decode-error/read-error items; the "
+               "WebSocket acceptor is driven with whole connections (one packet per message, fragmented messages, two packets glued into one message, "
+               "garbage messages) and one stalled-writer scenario, its GetNextMessage is Framing.wsNext; the websocket protocol layer itself (gorilla) is "
+               "trusted; the termination theorems are about the model's threads (a goroutine "
+               "blocked for ever inside conn.Write/conn.Close of the OS is outside); the owner-map theorems assume ids are not shared (allocation window).",
     lean_targets=["Cell2v.Props.C05", "modeld_c05"],
     driver="modeld_c05",
     driver_root="Cell2v.Driver.C05",
     audit="Audit/C05.lean",
     required_theorems=["close_once", "owner_sequence", "owner_sees_remove", "reader_end_closes", "every_ending_closes",
                        "any_thread_gone_all_released", "push_after_close_dropped", "parked_sender_released", "unique_live_id",
-                       "d6_old_reader_leaks", "d15_message_after_remove"],
+                       "d6_old_reader_leaks", "d15_message_after_remove",
+                       "internal_steps_terminate", "always_comes_to_rest", "close_cause_finishes", "close_causes_call_close",
+                       "frame_messages_never_dropped", "owner_sees_every_message_before_remove",
+                       "framing_independent_of_segmentation", "framing_delivers_all_packets", "single_read_loses_split_body",
+                       "new_id_not_live", "owner_lookup_hits_own_session", "owner_remove_deletes_own_entry", "owner_map_agrees",
+                       "id_reuse_hijacks_entry", "unlocked_latch_test_closes_twice", "ws_one_packet_per_message",
+                       "push_after_remove_reaches_nobody"],
     harness_pkg="./c05",
     mode="diff",
     reset_prefix="reset",
@@ -46,9 +80,13 @@ CONFIG = dict(
          "id counter at the 32-bit wrap; 1/25 of the cases may fill a send queue (non-reading client: writer parked in Write, 9999 pushes, heartbeat tick parks in its send) and then run every "
          "step as arm/go so that a process death leaves a replayable witness; 1/6 of the connections have a scripted panicking close callback; "
          "corpus of the D6/D15 witnesses, scripted coincidences, full-queue and panicking-callback scenarios first; accept bursts (1, 2, 64, random) through the real "
-         "pomelo.StartAcceptor over a fake acceptor with a pre-filled connection channel, one P; tcp smoke run: whole connections against the real TCPAcceptor on 127.0.0.1 (valid packet "
-         "prefixes, then nothing / truncated header / invalid type / short body / oversize announcement, then FIN), final callback logs, socket closed, goroutines "
-         "released; one evaluation = one grant compared with the model; "
+         "pomelo.StartAcceptor over a fake acceptor with a pre-filled connection channel, one P; tcp run: whole connections against the real TCPAcceptor on 127.0.0.1 (valid packet "
+         "prefixes incl. one 300 kB message per 10 data packets, then nothing / truncated header / invalid type / short body / oversize announcement, then FIN; "
+         "2 of 3 streams arrive in 2-4 pieces with 4 ms pauses, cut inside a header / between header and body / inside a body / anywhere), final callback logs, "
+         "every complete message after the handshake delivered, socket closed, goroutines released; a third as many connections with the same scripts through the "
+         "real WSAcceptor (one packet per binary message; 1/3 with every message in two fragments; 1/6 with the last two packets glued into one message); two race ops per run (child process): 150-200 x tier scale "
+         "sessions with 1-4 Close() calls + EOF + write failure arriving while the session's mutex is held, 300-400 x scale sessions with 2-8 + EOF + write "
+         "failure released together; one evaluation = one grant compared with the model; "
          "non-trivial = every enabled grant; distinct = distinct (op, observation) pairs",
     trusted_base=[
         "Lean 4.33.0 kernel; axioms audited per theorem (propext, Classical.choice, Quot.sound)",
@@ -58,12 +96,19 @@ CONFIG = dict(
         "Go runtime: sync.Mutex mutual exclusion, channel close/select semantics, atomic loads/stores of the status word",
         "the scripted PlayerConn of the harness (a closed conn fails reads and writes at once; Close unblocks a pending read/write)",
         "harness canonicalisation: per-connection logs, sorted live ids, goroutine count as a delta to the start of the case",
+        "hand-written model lean/Cell2v/Model/Framing.lean tied to pomelonet/server/acceptor/tcp_acceptor.go by the tcp engine (same stream, same cuts); "
+        "loopback TCP delivers what was written before a 4 ms pause before the rest; gorilla/websocket message reassembly (ws engine)",
+        "race op: reflect/unsafe access to the one sync.Mutex field of ClientSession and the runtime's waiter count in its state word (falls back to the "
+        "spin barrier when the session has no single mutex field)",
     ],
     assumptions=[
         "application pushes never find the 9999-slot send queue full (they would park the owner goroutine); the heartbeat's send on a full queue IS modelled "
-        "(it parks; while parked the session cannot expire); fewer than 999 queued owner tasks",
+        "(it parks; while parked the session cannot expire); fewer than 999 queued owner tasks (sche.Post blocks on a full queue: a Close on the "
+        "owner goroutine itself - ClientSessions.Kick - would then block for ever inside OnSessionClose while holding the session mutex; sche.go's own comment "
+        "says so)",
         "close callbacks may panic (the scheduler recovers): a panicking handler callback ends RemoveSession before the sessions' own close callback",
-        "fewer than 2^32-2 sessions are accepted during the lifetime of any live session (allocator guard of unique_live_id)",
+        "fewer than 2^32-2 sessions are accepted during the lifetime of any live session and before its last posted message was consumed (allocator guard of "
+        "unique_live_id / new_id_not_live; id_reuse_hijacks_entry shows what happens otherwise)",
         "the client does not pipeline data before the owner processed session-add (otherwise ClientMsg.SessionId is 0; not part of the predicate)",
         "conn.Close(), OnSessionCreate/OnSessionClose/ProcessMessage of the Impl and the owner's scheduler Post do not block",
     ],
